@@ -76,6 +76,8 @@ def gen_spec(rng, idx, route=None):
         spec.update(shape=[n_il, n_xl, n_s], bits=bits, blockshape=list(bs))
         if route == 'numpy' and rng.random() < 0.3:
             spec['hdrs'] = True
+        if route == 'numpy' and rng.random() < 0.2:
+            spec['nonfinite'] = True        # a few NaN / +-Inf samples
         if route != 'numpy':
             spec['fmt'] = rng.choice([1, 5])
             spec['il0'] = rng.choice([1, 1, 100, 2000, -3])      # -3: line numbers cross zero
@@ -151,6 +153,11 @@ def converter_fn(spec, out_path):
     bs = tuple(spec['blockshape'])
     if route == 'numpy':
         data = segygen.cube_data(tuple(spec['shape']), spec['data_seed'])
+        if spec.get('nonfinite'):
+            rs = np.random.RandomState(spec['data_seed'] % (2 ** 31))
+            flat = data.reshape(-1)
+            for k, v in zip(rs.randint(0, flat.size, size=6), [np.nan, np.inf, -np.inf, np.nan, np.inf, np.nan]):
+                flat[k] = v
 
         kw = {}
         if spec.get('hdrs'):
